@@ -88,11 +88,19 @@ func TestVerifC10Ext(t *testing.T) {
 					}
 				}
 			}
-			errStart := x.Start(context.Background(), componenttest.NewNopHost())
-			nStart := len(w.log)
-			errStop := x.Shutdown(context.Background())
-			c := &vCase{kind: 1, exts: exts, deps: deps, extOrder: order, fxStart: pl.fxStart, fxStop: pl.fxStop, log: w.log}
-			c.errs = append(vErrList(errStart), vErrList(errStop)...)
+			pl.cx.arm(nil, byIdx)
+			var errStop error
+			errStart, errAll, nStart := vRunLifetime(w, pl.cx,
+				func(ctx context.Context) error { return x.Start(ctx, componenttest.NewNopHost()) },
+				func(ctx context.Context) error { errStop = x.Shutdown(ctx); return errStop })
+			if w.ret == nil {
+				w.ret = map[[2]int]bool{}
+			}
+			c := &vCase{kind: 1, exts: exts, deps: deps, extOrder: order, fxStart: pl.fxStart, fxStop: pl.fxStop, log: w.log, cx: pl.cx, ret: w.ret}
+			c.errs = vErrList(errAll)
+			if pl.cx.any() {
+				out.Stat("ctx-scenario", 1)
+			}
 			term := c.term()
 			// start sequence = prefix of the computed order; shutdown sequence = its reverse
 			st := vSeq(w.log[:nStart], tXStart)
